@@ -453,17 +453,22 @@ class Gen:
             return ['Plen', p, 3], True, min(3, mn)
         if k == 'Pwrap' or k == 'Pnarop':
             s = sort if sort != 'num' else r.choice(['int', 'float'])
-            p, fin, mn = G(s)
-            lo_, fl, ml = self.gen(s, min(d - 1, 1), 'str')
-            hi_, fh, mh = self.gen(s, min(d - 1, 1), 'str')
+            # int/float TYPE MIX of element and bounds (only where the result sort allows it)
+            mix = sort in ('num', 'float') and r.random() < 0.6
+            sp = r.choice(['int', 'float', 'num']) if (mix and sort == 'num') else s
+            sl = r.choice(['int', 'float']) if mix else s
+            sh = r.choice(['int', 'float']) if mix else s
+            p, fin, mn = G(sp)
+            lo_, fl, ml = self.gen(sl, min(d - 1, 1), 'str')
+            hi_, fh, mh = self.gen(sh, min(d - 1, 1), 'str')
             # keep lo < hi: lo := -|lo| - 1 style shifts are expressed with constants
-            lo_ = ['Pbinop', 'sub', ['Punop', 'neg', ['Punop', 'abs', lo_]], V(self.leaf(s) if False else (vi(1) if s == 'int' else vf(1)))]
-            hi_ = ['Pbinop', 'add', ['Punop', 'abs', hi_], V(vi(1) if s == 'int' else vf(Fraction(1, 2)))]
+            lo_ = ['Pbinop', 'sub', ['Punop', 'neg', ['Punop', 'abs', lo_]], V(vi(1) if sl == 'int' else vf(1))]
+            hi_ = ['Pbinop', 'add', ['Punop', 'abs', hi_], V(vi(1) if sh == 'int' else vf(Fraction(1, 2)))]
             z = r.random()
             if z < 0.15:
-                lo_, fl, ml = V(vi(0) if s == 'int' else vf(0)), False, INFN       # lo = 0 < hi
+                lo_, fl, ml = V(vi(0) if sl == 'int' else vf(0)), False, INFN       # lo = 0 < hi
             elif z < 0.3:
-                hi_, fh, mh = V(vi(0) if s == 'int' else vf(0)), False, INFN       # lo < hi = 0
+                hi_, fh, mh = V(vi(0) if sh == 'int' else vf(0)), False, INFN       # lo < hi = 0
             if k == 'Pwrap':
                 return ['Pwrap', p, lo_, hi_], fin or fl or fh, min(mn, ml, mh)
             return ['Pnarop', r.choice(['clip', 'wrap', 'fold']), p, lo_, hi_], fin or fl or fh, min(mn, ml, mh)
@@ -521,7 +526,7 @@ class Gen:
                     ln = 6
             else:
                 st, fs, ms = self.gen(s, d - 1, 'str')
-            start = self.leaf(s)
+            start = self.leaf(s if sort != 'num' else r.choice(['int', 'float']))    # start and step may differ in type
             return [k, start, st, ln], fs or ln != 'inf', (ms if ln == 'inf' else min(ln, ms))
         if k == 'Pswitch':
             w, fw_, mw = self.gen('small', d - 1, 'str', lo=-2, hi=5)
@@ -760,6 +765,17 @@ def directed():
                 ['Ptuple', [a, b], 1], ['Ptuple', [I(0), a, b], 2], ['Pif', a, b, b], ['Pif', S([1, 1]), a, b],
                 ['Pif', S([0, 0]), b, a], ['Pseries', vi(0), a, 1], ['Pslide', [I(1), I(2)], a, b, 0, 1, 3],
                 ['Pslide', [I(1), I(2)], b, a, 0, 1, 3], ['Pseed', S([2]), ['Pwhite', a, b, 3]]]
+    # --- int/float TYPE MIX of element and bounds / start and step (values outside, at and inside the range)
+    FL = lambda v: V(vf(v))
+    ints, flts = ['Pseries', vi(-4), I(1), 13], ['Pseries', vf(Fraction(-7, 2)), FL(Fraction(3, 4)), 12]
+    for lo_, hi_ in ((FL(0), FL(Fraction(5, 2))), (I(0), FL(Fraction(5, 2))), (FL(Fraction(1, 2)), I(3)), (I(-1), I(2)),
+                     (FL(-1), FL(2)), (FL(Fraction(-3, 2)), I(0))):
+        for src in (ints, flts, ['Pseq', [I(7), FL(Fraction(15, 4)), I(-6), FL(-2), I(0), FL(0)], 1, 0]):
+            out += [['Pwrap', src, lo_, hi_]] + [['Pnarop', op, src, lo_, hi_] for op in ('wrap', 'fold', 'clip')]
+    out += [['Pseries', vi(1), FL(Fraction(1, 2)), 5], ['Pseries', vf(Fraction(1, 2)), I(2), 5], ['Pseries', vi(0), ['Pseq', [I(1), FL(Fraction(1, 4))], 'inf', 0], 6],
+            ['Pgeom', vi(3), FL(Fraction(1, 2)), 5], ['Pgeom', vf(Fraction(3, 2)), I(2), 5], ['Pgeom', vi(1), ['Pseq', [I(2), FL(Fraction(3, 2))], 'inf', 0], 6],
+            ['Pconst', ['Pseq', [I(1), FL(Fraction(1, 2))], 'inf', 0], vi(4), vf(Fraction(1, 8))], ['Pconst', S([1, 2, 3]), vf(Fraction(9, 2)), vi(0)],
+            ['Pdiff', ['Pseq', [I(1), FL(Fraction(5, 2)), I(4)], 1, 0]]]
     # EVERY binary operator of AbstractObject with a plain number on either side (reflected forms),
     # standalone and nested; operands chosen so that a op b != b op a for the non-commutative ones
     for op in sorted(BOPS):
@@ -963,7 +979,8 @@ def correspond(ctx):
         if k.get('implonly'):
             for w in (0, 1):
                 tw = canon_end(o['two'][w])
-                if tw[0] != it_[0][:len(tw[0])]:
+                mlen = min(len(tw[0]), len(it_[0]))
+                if tw[0][:mlen] != it_[0][:mlen]:
                     c.failures.append(Failure('correspondence', 'interleaved streams of one seeded pattern differ: %s' % show(e),
                                               signature='C13:seeded_differs', found_input=True, theorem='seeded_same_sequence',
                                               replay={'expr': e, 'show': show(e), 'iter': o['iter'], 'two': o['two']}))
